@@ -366,7 +366,38 @@ class PathObj(Ext):
                     raise Unsupported("glob pattern %r" % pat)
                 return VList([p for p in self.listing if p.label.endswith(".mo")])
             return stub(glob)
+        # the rest of pathlib's pure-path interface, from the path text
+        parts = [x for x in self.label.split("/") if x != ""]
+        if name == "parts":
+            return tuple(parts)
+        if name == "name":
+            return parts[-1] if parts else ""
+        if name == "stem":
+            nm = parts[-1] if parts else ""
+            return nm.rsplit(".", 1)[0] if "." in nm[1:] else nm
+        if name == "parent":
+            return PathObj("/".join(parts[:-1]) or ".", "dir")
+        if name == "parents":
+            return VList([PathObj("/".join(parts[:k]) or ".", "dir") for k in range(len(parts) - 1, -1, -1)])
+        if name == "relative_to":
+            def rel(eng, other):
+                o = other.label if isinstance(other, PathObj) else str(other)
+                if self.label == o or self.label.startswith(o.rstrip("/") + "/"):
+                    return PathObj(self.label[len(o.rstrip("/")) + 1:] or ".", self.kind)
+                raise PyRaise(eng.make_exc("ValueError", "%r is not in the subpath of %r" % (self.label, o)))
+            return stub(rel)
+        if name in ("resolve", "absolute", "expanduser"):
+            return stub(lambda eng, *a, **k: self)
+        if name == "exists":
+            return stub(lambda eng: self.kind != "none")
+        if name == "as_posix":
+            return stub(lambda eng: self.label)
         raise Unsupported("Path.%s" % name)
+
+    def sym_binop(self, eng, op, other, reflected):
+        if op in ("Div", "TrueDiv") and not reflected:
+            return PathObj(self.label.rstrip("/") + "/" + (other.label if isinstance(other, PathObj) else str(other)), "file")
+        raise Unsupported("path operator %s" % op)
 
     def __repr__(self):
         return self.label
@@ -376,6 +407,9 @@ PATH_SETS = [
     [("a.mo", "file")], [("a.mo", "file"), ("notes.txt", "file")], [("lib", "dir", ["lib/p.mo", "lib/sub/q.mo", "lib/readme.md"])],
     [("lib", "dir", ["lib/p.mo"]), ("b.mo", "file"), ("missing.mo", "none")], [("empty", "dir", [])],
     [("lib", "dir", ["lib/p.mo", "lib/q.mo"]), ("lib2", "dir", ["lib2/r.mo"])],
+    # a directory that lies below a dot directory (~/.local/share/..., .build/models), and a tree that contains a dot file
+    [("home/.ws/lib", "dir", ["home/.ws/lib/p.mo", "home/.ws/lib/sub/q.mo"])],
+    [("lib", "dir", ["lib/p.mo", "lib/.q.mo"]), ("../other/r.mo", "file")],
 ]
 
 
@@ -438,7 +472,9 @@ def h_compiler_file_loop(eng):
     eng.prove("fileloop.compiler.every_mo_file_below_the_paths_listed_once", z3.BoolVal(len(files) == len(all_files) and all(a is b for a, b in zip(files, all_files))))
     bad = [p for p in all_files if outcome.get(p.label)]
     eng.prove("fileloop.compiler.error_files_are_exactly_the_files_that_failed_to_parse", z3.BoolVal(len(errors) == len(bad) and all(a is b for a, b in zip(errors, bad))))
-    good = [trees[p.label] for p in all_files if not outcome.get(p.label)]
+    never_parsed = [p.label for p in all_files if p.label not in outcome]
+    eng.prove("fileloop.compiler.every_listed_file_is_parsed", z3.BoolVal(not never_parsed), never_parsed=never_parsed)
+    good = [trees[p.label] for p in all_files if p.label in trees]
     ok = [o for s_, o in extended] == good and len({id(s_) for s_, o in extended}) <= 1 and (not given or all(s_ is lib for s_, o in extended))
     eng.prove("fileloop.compiler.every_parsed_file_merged_once_into_the_library", z3.BoolVal(bool(ok)))
 
